@@ -67,6 +67,45 @@ def run(ctx):
                         "PIN field prefix " + o.from_nibbles(o.pin_field4_nibbles(pin, b"")[:16]).hex(), pf.hex())
                 lines.append(core.model_line("encipher_pinblock_iso_4", (key, pin, pan4, pf[8:])))
                 expect.append("OK " + core.show(e4[1]))
+    # the same layouts with DEBUG logging enabled in the host application and with PIN / PAN given as instances of a str
+    # subclass whose display forms (format / str / repr) are not the digits: only the characters may matter
+    with fw.debug_logging():
+        for _ in range(ctx.n(60, 400)):
+            pin0 = rnd_digits(rng, rng.randrange(4, 13))
+            pan0 = rnd_digits(rng, rng.randrange(13, 20))
+            pan40 = rnd_digits(rng, rng.randrange(1, 20))
+            key = rng.randbytes(rng.choice((16, 24, 32)))
+            for wrap_ in (str, fw._Str):
+                pin, pan, pan4 = wrap_(pin0), wrap_(pan0), wrap_(pan40)
+                how = "DEBUG logging enabled" + ("" if wrap_ is str else ", arguments as str-subclass instances")
+                evals += 5
+                b0 = call(pinblock.encode_pinblock_iso_0, pin, pan)
+                e0 = o.from_nibbles(o.xor_nibbles(o.pin_block_nibbles(0, pin0), o.pan_block(pan0)))
+                if b0 != ("OK", e0):
+                    bad("format 0 layout (" + how + ")", {"fn": "iso_0", "args": [pin0, pan0]}, e0.hex(), repr(b0))
+                b2 = call(pinblock.encode_pinblock_iso_2, pin)
+                e2 = o.from_nibbles(o.pin_block_nibbles(2, pin0))
+                if b2 != ("OK", e2):
+                    bad("format 2 layout (" + how + ")", {"fn": "iso_2", "args": [pin0]}, e2.hex(), repr(b2))
+                b3 = call(pinblock.encode_pinblock_iso_3, pin, pan)
+                ok3 = b3[0] == "OK" and len(b3[1]) == 8
+                if ok3:
+                    nib = unmask(b3[1], pan0)
+                    ok3 = nib[:2 + len(pin0)] == [3, len(pin0)] + [int(c) for c in pin0] and all(x >= 10 for x in nib[2 + len(pin0):])
+                if not ok3:
+                    bad("format 3 layout (" + how + ")", {"fn": "iso_3", "args": [pin0, pan0]}, "3, L, digits, fill in A..F", repr(b3))
+                g4 = call(pinblock.encode_pan_field_iso_4, pan4)
+                x4 = o.from_nibbles(o.pan_field4_nibbles(pan40))
+                if g4 != ("OK", x4):
+                    bad("format 4 PAN field layout (" + how + ")", {"fn": "pan_field_4", "args": [pan40]}, x4.hex(), repr(g4))
+                e4 = call(pinblock.encipher_pinblock_iso_4, key, pin, pan4)
+                if e4[0] == "OK":
+                    pf = o.D("aes", key, o.xor(o.D("aes", key, e4[1]), x4))
+                    if o.nibbles(pf)[:16] != o.pin_field4_nibbles(pin0, b"")[:16]:
+                        bad("format 4 block is not E(E(PIN field) xor PAN field) (" + how + ")", {"fn": "encipher_4", "args": [key.hex(), pin0, pan40]},
+                            "PIN field prefix " + o.from_nibbles(o.pin_field4_nibbles(pin0, b"")[:16]).hex(), pf.hex())
+                else:
+                    bad("format 4 encipher failed (" + how + ")", {"fn": "encipher_4", "args": [key.hex(), pin0, pan40]}, "OK", repr(e4))
     # AES keys that are also valid hex / decimal text (a binary key must never be re-interpreted as text)
     from harness import gens as G
     for ks in (16, 24, 32):
